@@ -183,7 +183,10 @@ static AnimSpec gen_spec(bool thorough) {
     t.dtype = types[W({52, 8, 8, 8, 8, 8, 8})];
     t.ncomp = P(70) ? R(1, 4) : R(5, 16);
     const bool quant = t.dtype == DT_FLOAT32 && P(55);
-    if (quant) t.qbits = W({20, 55, 25}) == 0 ? R(1, 8) : (P(80) ? R(9, 16) : R(17, thorough ? 24 : 22));
+    // (while finding E1 was open the symbol coder's cost grew with the largest symbol: 22 / 24 bits then)
+    const int qmax = open_finding("E1") ? (thorough ? 24 : 22) : 30;
+    if (quant) t.qbits = W({20, 55, 25}) == 0 ? R(1, 8) : (P(80) ? R(9, 16) : R(17, qmax));
+    const int wide = open_finding("E1") ? 20 : pick({20, 20, 29, 29, 31});
     const int sz = DataTypeLength(static_cast<DataType>(t.dtype));
     const double scale = std::pow(10.0, R(-4, 6));
     const double offs = P(70) ? 0 : R(-3, 3) * 1000.0;
@@ -206,8 +209,8 @@ static AnimSpec gen_spec(bool thorough) {
             case DT_UINT8: lo = 0; hi = 255; break;
             case DT_INT16: lo = -32768; hi = 32767; break;
             case DT_UINT16: lo = 0; hi = 65535; break;
-            case DT_INT32: lo = -(1 << 20); hi = (1 << 20) - 1; break;  // cost cap of the symbol coder, see DESIGN.md
-            default: lo = 0; hi = (1 << 21) - 1;
+            case DT_INT32: lo = -(1ll << wide); hi = (1ll << wide) - 1; break;
+            default: lo = 0; hi = (1ll << (wide + 1)) - 1;
           }
           int64_t v = vc == 0 ? (f * 3 + c) % 50 : lo + static_cast<int64_t>(sm.below(static_cast<uint64_t>(hi - lo + 1)));
           v = std::max(lo, std::min(hi, v));
@@ -244,7 +247,7 @@ int main(int argc, char **argv) {
   stats().rule =
       "rapidcheck-generated animations: 1..1500 (thorough 10^4) frames, sorted / unsorted / duplicate / negative timestamps, "
       "0..8 tracks of 1..16 components, float32 or int8..uint32, SetTimestamps before / between / after AddKeyframes, "
-      "per-track quantization 1..22 bits on float tracks, speeds 0..10, forced prediction; non-trivial = >= 2 frames and "
+      "per-track quantization 1..30 bits on float tracks, speeds 0..10, forced prediction; non-trivial = >= 2 frames and "
       ">= 1 track; distinct by spec hash";
   Harness h;
   h.run = [&](const std::string &) {
